@@ -226,6 +226,48 @@ func (e fixEvaluator) DropScale(op0, opOut *rlwe.Ciphertext) {
 	opOut.Scale = op0.Scale.Div(rlwe.NewScale(ringQ.SubRings[opOut.Level()].Modulus))
 }
 
+// FIRSTITER control: nothing initialises the sum when every index was filtered out
+func (e fixEvaluator) SumSome(ops []*rlwe.Ciphertext, idx []int, opOut *rlwe.Ciphertext) {
+	keep := idx
+	if len(idx) > 0 && idx[0] == 0 {
+		keep = idx[1:]
+	}
+	for i, k := range keep {
+		if i == 0 {
+			e.r.Add(ops[k].Value[0], ops[k].Value[1], opOut.Value[0])
+		} else {
+			e.r.Add(opOut.Value[0], ops[k].Value[0], opOut.Value[0])
+		}
+	}
+}
+
+// BUFSTATE control: the decomposition parked in BuffA is consumed again after scratchy used BuffA[0] as scratch
+type bufOwner struct {
+	r     *ring.Ring
+	BuffA []ring.Poly
+}
+
+func (o bufOwner) fill(in ring.Poly, out []ring.Poly) {
+	for i := range out {
+		o.r.NTT(in, out[i])
+	}
+}
+
+func (o bufOwner) consume(in []ring.Poly, out ring.Poly) { o.r.Add(in[0], in[1], out) }
+
+func (o bufOwner) scratchy(x, out ring.Poly) {
+	tmp := o.BuffA[0]
+	o.r.NTT(x, tmp)
+	o.r.Add(tmp, x, out)
+}
+
+func (o bufOwner) Twice(x, out1, out2 ring.Poly) {
+	o.fill(x, o.BuffA)
+	o.consume(o.BuffA, out1)
+	o.scratchy(x, out1)
+	o.consume(o.BuffA, out2)
+}
+
 // DEGLOOP control: the last component is never negated
 func (e fixEvaluator) NegHigh(op0, opOut *rlwe.Ciphertext) {
 	for i := 1; i < op0.Degree(); i++ {
